@@ -54,5 +54,22 @@ def run(tier, v, wd, replay=None):
     with open(sfile, "w") as f:
         f.write("\n".join(lines) + "\n")
     run_vectors(v, wd, repo, "./control/", "TestVerifC05Splice", sfile, tags="verif,dae_stub_ebpf", timeout=1500 if tier == "quick" else 3000, outname="out-splice.json")
+    # handleConn itself on real sockets: segments arriving while the upstream dial is in flight (RelayStart.tla)
+    stfile = os.path.join(wd.path, "c05start.ndjson")
+    slines = []
+    for port in (53, 443):
+        part = stfile + ".%d" % port
+        r = vlib.tlc(wd, "RelayStart", "RelayStart_%d.cfg" % port, emit_to=part, timeout=900)
+        v.add_tlc(r)
+        if r.violated:
+            raise vlib.Infra("RelayStart.tla violates %s in the model" % r.violated)
+        ls = sorted(open(part).read().splitlines())
+        keep = 3 if tier == "quick" else 1
+        slines += [l for i, l in enumerate(ls) if (i + vlib.seed()) % keep == 0]
+    with open(stfile, "w") as f:
+        f.write("\n".join(slines) + "\n")
+    res = run_vectors(v, wd, repo, "./control/", "TestVerifC05Start", stfile, tags="verif,dae_stub_ebpf", timeout=1500 if tier == "quick" else 3000, outname="out-start.json")
+    if (res.get("counters") or {}).get("c05start_undecided", 0) > len(slines) // 4:
+        raise vlib.Infra("the real-socket replay of handleConn could not be driven: %s" % (res.get("notes") or [])[:3])
     v.assumptions += ["the real ControlPlane.handleConn is driven over in-memory TCP-like sockets (buffered, CloseWrite, read deadlines) in virtual time; routing falls back to the userspace matcher, the outbound is a one-node group whose dialer returns the fake destination",
                       "the gather-write / splice paths need real *net.TCPConn sockets: they are driven at the level of one directional copy (defaultRelayCopyEngine.Copy, what relayCore.runDirection runs) over loopback TCP in real time; waits are 30 s, only progress is judged, never speed"]
